@@ -782,7 +782,7 @@ DFS_SETUPS_THOROUGH = DFS_SETUPS + [  # 61050, 482, 964 schedules
     {"mode": "cluster", "share": [0, 1], "writes": [2, 1], "fin": 1, "explicit_client": False},
     {"mode": "cluster", "share": [0, 1], "writes": [2, 2], "fin": 2, "explicit_client": True},
 ]
-DFS_LIMIT = {"quick": 100, "thorough": 10**7}
+DFS_LIMIT = {"quick": 200, "thorough": 10**7}
 
 
 def e_dfs(tier):
@@ -872,7 +872,7 @@ DST_NAMES = ["out.tif", "noext", "with space.bin", ".hidden.tif", "a.b.c"]
 
 @st.composite
 def s_sink(draw):
-    n = draw(st.integers(1, 8))
+    n = draw(st.one_of(st.integers(1, 8), st.integers(1, 8), st.integers(1, 8), st.integers(9, 12)))
     nos = draw(st.lists(PART_NUMBERS, min_size=n, max_size=n, unique=True))
     order = draw(st.sampled_from(["numeric", "numeric", "as_drawn", "reverse"]))
     if order == "numeric":
@@ -980,7 +980,7 @@ def _o_sink(case, T, root: Path, MPUFileSink):
     # classes
     if n >= 2:
         T.nontrivial()
-    T.cls("parts_1" if n == 1 else ("parts_2_3" if n <= 3 else "parts_4_8"))
+    T.cls("parts_1" if n == 1 else ("parts_2_3" if n <= 3 else ("parts_4_8" if n <= 8 else "parts_9_12")))
     if any(p[1] == 0 for p in parts[1:]):
         T.cls("zero_length_nonfirst")
     if parts[0][1] == 0:
@@ -1057,12 +1057,12 @@ def o_limits(case, T):
                 got[k] == dflt[k],
                 "%s was not configured, an unconfigured sink reports %r, this one %r (limits=%r)", k, dflt[k], got[k], lim,
             )
-    eff = {k: lim.get(k, dflt[k]) for k in LIMIT_NAMES}
-    if not (eff["max_write_sz"] > eff["min_write_sz"] and eff["max_part"] > eff["min_part"]):
-        T.exclude("configuration_contradicts_defaults")
-        return
-    require(got["max_write_sz"] > got["min_write_sz"], "max_write_sz %r <= min_write_sz %r (limits=%r)", got["max_write_sz"], got["min_write_sz"], lim)
-    require(got["max_part"] > got["min_part"], "max_part %r <= min_part %r (limits=%r)", got["max_part"], got["min_part"], lim)
+    for lo, hi in (("min_write_sz", "max_write_sz"), ("min_part", "max_part")):
+        if (lo in lim) != (hi in lim) and not lim.get(hi, dflt[hi]) > lim.get(lo, dflt[lo]):
+            # one end configured beyond the other end's default: the user's configuration is contradictory
+            T.exclude("configuration_contradicts_default_" + (hi if lo in lim else lo))
+            continue
+        require(got[hi] > got[lo], "%s %r <= %s %r (limits=%r)", hi, got[hi], lo, got[lo], lim)
     if lim:
         T.nontrivial()
     T.cls("configured_%d" % len(lim))
@@ -1128,12 +1128,12 @@ def o_s3_limits(case, T):
 
 # ===================================================================================================
 def build(chk: Check) -> None:
-    chk.sub("sched_random", o_sched, strategy=s_sched(), n={"quick": 3000, "thorough": 300000},
+    chk.sub("sched_random", o_sched, strategy=s_sched(), n={"quick": 5000, "thorough": 300000},
             budget_s={"quick": 50, "thorough": 800})
     chk.sub("sched_dfs2", o_dfs, enum=e_dfs, exhaustive_tiers=("thorough",), budget_s={"quick": 60, "thorough": 850})
-    chk.sub("sink_finalise", o_sink, strategy=s_sink(), n={"quick": 2000, "thorough": 100000},
+    chk.sub("sink_finalise", o_sink, strategy=s_sink(), n={"quick": 3000, "thorough": 100000},
             budget_s={"quick": 40, "thorough": 600})
-    chk.sub("sink_limits", o_limits, strategy=s_limits(), n={"quick": 2000, "thorough": 100000},
+    chk.sub("sink_limits", o_limits, strategy=s_limits(), n={"quick": 3000, "thorough": 100000},
             budget_s={"quick": 20, "thorough": 300})
     chk.sub("s3_limits", o_s3_limits, enum=e_s3_limits, exhaustive_tiers=("quick", "thorough"),
             budget_s={"quick": 20, "thorough": 60})
